@@ -158,6 +158,12 @@ theorem collections_bounded (m : Mode) (p : Prov) (hcs : 4 ≤ p.cs) (hb : ∀ a
     fun N b h => (deviceName_tri m p hcs hc hb N).post _ h b rfl,
     fun N b h => (deviceDescription_tri m p hcs hc hb N).post _ h b rfl⟩
 
+/-- T1 obligation: the capacities named in `collections_bounded` are the ones regenerated from /repo. -/
+theorem t1_capacities :
+    Gen.Eeprom.CAP_SYNC_MANAGERS = 8 ∧ Gen.Eeprom.CAP_FMMUS = 16 ∧ Gen.Eeprom.CAP_FMMU_EX = 16 ∧
+    Gen.Eeprom.CAP_PDOS = 64 ∧ Gen.Eeprom.FMMU_READ_BUF = 16 ∧ Gen.Eeprom.EMPTY_CATEGORY_LIMIT = 32 := by
+  decide
+
 /-! ## The full statement is false of the code as it is: one concrete image per defect class
 
   Memories are given as functions; every byte not mentioned is 0. All witnesses are replayed on the real code by
